@@ -1,4 +1,4 @@
 SPECIFICATION SpecF
-CONSTANTS NSync=3 MaxClock=1 RetentionEnabled=TRUE Fine=FALSE Variant="asis"
+CONSTANTS NSync=3 MaxClock=1 RetentionEnabled=TRUE Fine=FALSE Variant="asis" Fixes={}
 INVARIANTS ResumeAccepted
 CHECK_DEADLOCK FALSE
